@@ -825,8 +825,26 @@ func retryCase(rt *rapid.T) {
 		return upAction{Kind: "reply", Status: a.Status, Body: fmt.Sprintf("attempt %d", n)}
 	})
 	defer ups.Close()
-	cs, err := mesh.NewCaseBound(mesh.Opts{Down: "Http1", Up: "Http1", Hosts: ups.addrs(), Timeout: 5 * time.Second,
-		Retry: &v2.RetryPolicy{RetryPolicyConfig: v2.RetryPolicyConfig{RetryOn: retryOn, NumRetries: numRetries, StatusCodes: codes}, RetryTimeout: tryTimeout}})
+	retryPolicy := &v2.RetryPolicy{RetryPolicyConfig: v2.RetryPolicyConfig{RetryOn: retryOn, NumRetries: numRetries, StatusCodes: codes}, RetryTimeout: tryTimeout}
+	opts := mesh.Opts{Down: "Http1", Up: "Http1", Hosts: ups.addrs(), Timeout: 5 * time.Second, Retry: retryPolicy}
+	// route actions that are not idempotent (a rewrite whose result still starts with the matched prefix, a header
+	// appended to the request's own): a retry sends the request the first attempt sent, the actions applied once
+	withActions := rapid.Bool().Draw(rt, "routeActions")
+	reqTarget := "/retry"
+	reqHeader := [][2]string{{mesh.TokenHeader, "tok"}}
+	if withActions {
+		reqTarget = "/retry/items?id=7&next=/retry/x"
+		reqHeader = append(reqHeader, [2]string{"X-Added", "orig"})
+		yes := true
+		opts.Routers = func(cl string) []v2.Router {
+			act := v2.RouteAction{RouterActionConfig: v2.RouterActionConfig{ClusterName: cl, RetryPolicy: retryPolicy, PrefixRewrite: "/retry/v2",
+				RequestHeadersToAdd: []*v2.HeaderValueOption{{Header: &v2.HeaderValue{Key: "x-added", Value: "by-route"}, Append: &yes}}}, Timeout: 5 * time.Second}
+			return []v2.Router{route(v2.RouterMatch{Prefix: "/retry"}, act)}
+		}
+		desc += ", route with prefix_rewrite /retry -> /retry/v2 and an appended request header"
+		ev.Class(partE2E, "retry:with-route-actions")
+	}
+	cs, err := mesh.NewCaseBound(opts)
 	if err != nil {
 		rt.Skip("rig: " + err.Error())
 	}
@@ -838,7 +856,7 @@ func retryCase(rt *rapid.T) {
 		desc += fmt.Sprintf(", POST with %d body bytes", len(body))
 		ev.Class(partE2E, "retry:request-with-body")
 	}
-	res := do1Body(cs.Addr, method, "/retry", "h.example", [][2]string{{mesh.TokenHeader, "tok"}}, body, waitDeadline)
+	res := do1Body(cs.Addr, method, reqTarget, "h.example", reqHeader, body, waitDeadline)
 	if res.Err != nil {
 		fail(rt, "retry/no-response", "%s: %v", desc, res.Err)
 	}
@@ -856,6 +874,16 @@ func retryCase(rt *rapid.T) {
 	for i, r := range lg {
 		if r.Method != method || r.Body != string(body) {
 			fail(rt, "retry/attempt-differs-from-request", "%s: attempt %d reached the upstream as %s with %d body bytes, the request is %s with %d", desc, i+1, r.Method, len(r.Body), method, len(body))
+		}
+		// every retry is the first attempt again: same target, same header lines (what the first attempt must look like
+		// is the subject of the rewrite / headers scenarios)
+		if i > 0 {
+			if r.Target != lg[0].Target {
+				fail(rt, "retry/attempt-differs-from-first-attempt:target", "%s: attempt %d was sent to %q, the first attempt to %q", desc, i+1, r.Target, lg[0].Target)
+			}
+			if a, b := headerLines(lg[0].Header), headerLines(r.Header); a != b {
+				fail(rt, "retry/attempt-differs-from-first-attempt:headers", "%s: attempt %d carried header lines %s, the first attempt %s", desc, i+1, b, a)
+			}
 		}
 	}
 	// a retry only under a configured condition: nothing may follow a final outcome
@@ -894,6 +922,16 @@ func retryCase(rt *rapid.T) {
 	if got > strict {
 		fail(rt, "retry/attempts-exceed-1+num_retries:budget-floor-3", "%s: %d attempts with num_retries=%d", desc, got, numRetries)
 	}
+}
+
+// headerLines renders a header list as a sorted multiset of lower-cased "name: value" lines.
+func headerLines(h [][2]string) string {
+	out := make([]string, 0, len(h))
+	for _, kv := range h {
+		out = append(out, strings.ToLower(kv[0])+": "+kv[1])
+	}
+	sort.Strings(out)
+	return strings.Join(out, " | ")
 }
 
 // retryConnectCase: one configured host refuses connections; whatever host is tried first, the request
